@@ -758,7 +758,7 @@ def check_ext_property(ctx, case, obs):
         last_out = bool(ords) and outside(ords[-1], left, right)
         if obs["success"] and not last_out:
             ctx.fail(f"C12:{eng}:success-without-crossing", f"orders {ords}, interfaces {left, right}", rep)
-        if last_out and len(path) < maxlen and not obs["success"]:
+        if last_out and not obs["success"]:      # full strength since repair f955162 (also at the limit)
             ctx.fail(f"C12:{eng}:crossing-not-reported", f"orders {ords}, interfaces {left, right}, maxlen {maxlen}", rep)
         stopped = last_out or len(path) >= maxlen
         if not stopped:
@@ -1018,7 +1018,7 @@ def check_path_rules(ctx, eng, case, obs, rep, tol=0.0):
         last_out = bool(ords) and outside(ords[-1], left, right)
         if obs["success"] and not last_out:
             ctx.fail(f"C12:{eng}:success-without-crossing", f"orders {ords}, interfaces {left, right}", rep)
-        if last_out and len(path) < maxlen and not obs["success"]:
+        if last_out and not obs["success"]:      # full strength since repair f955162 (also at the limit)
             ctx.fail(f"C12:{eng}:crossing-not-reported", f"orders {ords}, interfaces {left, right}, maxlen {maxlen}", rep)
     else:
         ctx.fail(f"C12:{eng}:raised-on-healthy-run", f"{obs.get('exc')}", rep)
